@@ -144,6 +144,10 @@ func runTyped(c *Case, o *Obs, in []byte) {
 		return
 	}
 	var got []string
+	for _, t := range typed {
+		holdValue("a value DecodeSeries decoded", t.V)
+		holdString("a type name DecodeSeries returned", t.Type)
+	}
 	for _, a := range accepted {
 		o.Items = append(o.Items, [2][]int{bytesOf([]byte(a.name)), runesOf(a.raw)})
 		cj, err := canonJSON(a.raw)
@@ -189,6 +193,7 @@ func runStream(o *Obs, in []byte) {
 			return
 		}
 		o.Vals = append(o.Vals, runesOf([]byte(raw)))
+		holdBytes("a RawMessage Decode filled", []byte(raw))
 		cj, err := canonJSON([]byte(raw))
 		if err != nil {
 			cj = "E(" + err.Error() + ")"
